@@ -143,8 +143,51 @@ def length_changing_consistency(tier, seed):
     return fails, n_eval
 
 
+def registry_consistency(tier, seed):
+    """'… processing/analysis function': every function of the public registry (shared with C03 / C08 / C11) on 1-D, 2-D and
+    3-D inputs with pairwise distinct extents, the dimension acted on in every position: a returned data object is consistent"""
+    import numpy as np, warnings, io, contextlib, itertools
+    import matplotlib
+    matplotlib.use("Agg")
+    import matplotlib.pyplot as plt
+    from common import dnp, consistent
+    from props.C03 import _registry
+    rng = random.Random(seed * 7919 + 107)
+    fails, n_eval, seen = [], 0, set()
+    shapes = [([8], 0), ([3, 8], 1), ([8, 2], 0), ([2, 8, 3], 1), ([8, 2, 3], 0), ([3, 2, 8], 2)]
+    for shape, k in shapes:
+        for name, fn, _ in _registry(rng):
+            dims = ["t2" if i == k else ("Average" if i == 0 else "x%d" % i) for i in range(len(shape))]
+            if name.startswith("inverse"):
+                dims = [("f2" if dm == "t2" else dm) for dm in dims]
+            vals = (np.arange(1, int(np.prod(shape)) + 1, dtype=float).reshape(shape) ** 1.5) * np.exp(0.3j)
+            coords = [np.linspace(0.0, 2.0, s_) if i == k else np.arange(s_, dtype=float) for i, s_ in enumerate(shape)]
+            d = dnp.DNPData(vals, list(dims), coords, attrs={"nmr_frequency": 4e8, "experiment_type": "nmr_spectrum"},
+                            dnplab_attrs={"frequency": 4e8})
+            res = None
+            with warnings.catch_warnings():
+                warnings.simplefilter("ignore")
+                with contextlib.redirect_stdout(io.StringIO()):
+                    try:
+                        res = fn(d, dims[k])
+                    except Exception:  # noqa: BLE001
+                        res = None
+            plt.close("all")
+            n_eval += 1
+            for obj, what in ((res, "result"), (d, "argument")):
+                if isinstance(obj, dnp.DNPData) and not consistent(obj) and (name, what) not in seen:
+                    seen.add((name, what))
+                    key = "C01:inconsistent-object:registry:%s:%s" % (name, what)
+                    fails.append({"key": key, "clause": key, "ops": [{"function": name, "shape": shape, "dim_pos": k}]})
+    return fails, n_eval
+
+
 def run(tier, seed, escalate=False):
     res = P.run(tier, seed, escalate)
+    f3, n3 = registry_consistency("thorough" if escalate else tier, seed)
+    res["impl_failures"] += [f for f in f3 if f["key"] not in {g["key"] for g in res["impl_failures"]}]
+    res["evaluations"] += n3
+    res["distribution"]["registry_calls"] = n3
     fails, n_eval = importer_consistency("thorough" if escalate else tier, seed)
     f2, n2 = length_changing_consistency("thorough" if escalate else tier, seed)
     fails += f2; n_eval += n2
